@@ -47,6 +47,13 @@ def main():
     Ds = [mgh.bfs_dist(g).astype(np.int64) for g in gs]
     if any(mgh.exact_double(a, b, bb=True) != mgh.exact_double(a, b, bb=False) for a in Ds[::2] for b in Ds[::3]):
         fails.append("branch-and-bound mGH oracle disagrees with enumeration")
+    # numpy evaluation of the sliced Wasserstein definition == pure-Python evaluation
+    from oracles import simple as OS
+
+    A_ = [[0.0, 2.0], [-1.0, 3.5], [1.0, 1.5]]
+    B_ = [[0.5, 2.25], [-2.0, -1.0]]
+    if any(abs(OS.sliced_wasserstein(A_, B_, M) - OS.sliced_wasserstein_np(A_, B_, M)) > 1e-12 for M in (1, 2, 7, 50, 131)):
+        fails.append("numpy sliced-Wasserstein oracle disagrees with the pure-Python one")
     for extra in ("selftest_extra",):
         try:
             mod = __import__("mc." + extra, fromlist=["x"])
